@@ -270,10 +270,10 @@ type hookCtl struct {
 	cond   *sync.Cond
 	counts map[string]int
 
-	parkRot    bool
-	parked     []chan struct{} // parked post-rotation flush goroutines
-	rotEnter   int
-	rotExit    int
+	parkRot  bool
+	parked   []chan struct{} // parked post-rotation flush goroutines
+	rotEnter int
+	rotExit  int
 	// pendingRot: rotated chunks whose flush goroutine (spawned at rotation) has not arrived yet, per (bucket, chunk);
 	// countedRot: goroutines whose flush was counted as such (GC also flushes chunks by id: those calls are not counted)
 	pendingRot map[[2]int]int
